@@ -8,6 +8,8 @@ import ProphyModel.Py
 import ProphyModel.PLayout
 import ProphyModel.Topo
 import ProphyModel.Expr
+import ProphyModel.Cpp
+import ProphyModel.Text
 open Lean Prophy Prophy.Driver
 
 structure DState where
@@ -84,6 +86,43 @@ def handle (st : DState) (j : Json) : Except String (DState × Json) := do
     let ty ← getTy st j
     pure (st, Json.mkObj [("size", Spec.sizeTy ty), ("align", Spec.alignTy ty),
       ("dyn", Spec.dynTy ty), ("unl", Spec.unlTy ty)])
+  | "cpp_encode" =>
+    let ty ← getTy st j
+    let v ← valOfJson (← j.getObjVal? "v")
+    let e ← endianOf (← getStr j "e")
+    let cells := Cpp.encodePtr ty v e
+    let size := Cpp.getByteSize ty v
+    let vec := match Cpp.encodeVec ty v e with
+      | .ok b => Json.str (toHex b)
+      | .fault => Json.str "fault"
+    pure (st, Json.mkObj [("size", size), ("ptr_written", cells.length),
+      ("ptr_bytes_zero", toHex (cells.map (·.getD 0))),
+      ("written_mask", String.ofList (cells.map fun c => if c.isSome then 'w' else '.')),
+      ("vec", vec), ("encoded_byte_size", Json.num (JsonNumber.fromInt (Cpp.codecSize ty)))])
+  | "py_str" =>
+    let ty ← getTy st j
+    let v ← valOfJson (← j.getObjVal? "v")
+    pure (st, Json.mkObj [("text", Text.pyText ty v)])
+  | "cpp_print" =>
+    let ty ← getTy st j
+    let v ← valOfJson (← j.getObjVal? "v")
+    pure (st, Json.mkObj [("text", Text.cppText ty v)])
+  | "cpp_traits" =>
+    let ty ← getTy st j
+    pure (st, Json.mkObj [("opt_misaligned", Cpp.optMisaligned ty), ("cpp_align", Cpp.cppAlign ty),
+      ("codec_size", Json.num (JsonNumber.fromInt (Cpp.codecSize ty)))])
+  | "cpp_decode" =>
+    let ty ← getTy st j
+    let data ← ofHex (← getStr j "data")
+    let e ← endianOf (← getStr j "e")
+    match Cpp.decode ty data e with
+    | .accepted v rs => pure (st, Json.mkObj [("outcome", "accepted"), ("val", valToJson v),
+        ("resizes", Json.arr (rs.map fun (n : Nat) => (n : Json)).toArray)])
+    | .rejected rs => pure (st, Json.mkObj [("outcome", "rejected"),
+        ("resizes", Json.arr (rs.map fun (n : Nat) => (n : Json)).toArray)])
+    | .fault => pure (st, Json.mkObj [("outcome", "fault")])
+    | .exception rs => pure (st, Json.mkObj [("outcome", "exception"),
+        ("resizes", Json.arr (rs.map fun (n : Nat) => (n : Json)).toArray)])
   | "prophyc_eval" =>
     let text ← getStr j "text"
     let env ← envOfJson (← j.getObjVal? "env")
